@@ -30,7 +30,10 @@ LEVEL = "model_checking"
 
 _CFG = {}
 _TEXTS = {}  # lib -> tuple of source texts (more than one: merged with Tree.extend)
-_PREP = {}  # lib -> {"snap": bytes|None, "classes": [...], "fresh": {(kind, cls): result}, "digest": str}
+# lib -> {"snap": bytes|None|<path of the file holding the bytes>, "classes": [...], "fresh": {(kind, cls): result},
+# "digest": str}.  Filled by _prepare in one worker, handed to the others through files in a scratch directory
+# (one pool for both phases: a forked worker is expensive to start).
+_PREP = {}
 
 # files that only make sense together (the second refers to classes of the first)
 MULTI = (
@@ -76,6 +79,15 @@ def _preimport():
     import pymoca.tree  # noqa: F401
     import tools.compiler  # noqa: F401
 
+    # warm the lazily built caches (ANTLR prediction DFA, template compilers, ...) that would otherwise be
+    # rebuilt in every worker; the results are not used
+    from pymoca import parser
+
+    for text in libs.HAND_LIBS.values():
+        t = parser.parse(text, bypass_cache=True)
+        for kind in ALL_KINDS:
+            do_request(t, kind, libs.class_paths(t)[-1])
+
 
 def _parse(lib):
     """A real parse of the library text(s)."""
@@ -105,15 +117,32 @@ def _snapshot(tree):
     return None
 
 
+def _load_index():
+    if not _CFG.get("index_loaded"):
+        with open(os.path.join(_CFG["prepdir"], "index.pkl"), "rb") as f:
+            _PREP.clear()
+            _PREP.update(pickle.load(f))
+        _CFG["index_loaded"] = True
+
+
+def _prep(lib):
+    _load_index()
+    p = _PREP[lib]
+    if isinstance(p["snap"], str):
+        with open(p["snap"], "rb") as f:
+            p["snap"] = f.read()
+    return p
+
+
 def _fresh_tree(lib):
-    p = _PREP.get(lib)
-    if p is not None and p["snap"] is not None:
+    p = _prep(lib)
+    if p["snap"] is not None:
         return pickle.loads(p["snap"])
     return _parse(lib)
 
 
 def classes_of(lib):
-    return _PREP[lib]["classes"]
+    return _prep(lib)["classes"]
 
 
 def kinds_for(lib):
@@ -186,19 +215,23 @@ def _prepare(lib):
     if not classes:
         return lib, None
     p = {"snap": _snapshot(t), "classes": classes, "digest": dump.digest(t), "fresh": {}}
-    _PREP[lib] = p
     first = True
     for kind in kinds_for(lib):
         for cls in classes:
             # the very first request uses the parsed tree itself, all others a restored snapshot
-            tree = t if first else _fresh_tree(lib)
+            tree = t if first else (pickle.loads(p["snap"]) if p["snap"] is not None else _parse(lib))
             first = False
             p["fresh"][(kind, cls)] = do_request(tree, kind, cls)
+    if p["snap"] is not None and "prepdir" in _CFG:
+        path = os.path.join(_CFG["prepdir"], "snap_%s" % hashlib.sha1(lib.encode()).hexdigest())
+        with open(path, "wb") as f:
+            f.write(p["snap"])
+        return lib, dict(p, snap=path)
     return lib, p
 
 
 def fresh(lib, kind, cls):
-    return _PREP[lib]["fresh"][(kind, cls)]
+    return _prep(lib)["fresh"][(kind, cls)]
 
 
 def _outcome_class(exp, got):
@@ -212,6 +245,7 @@ def _outcome_class(exp, got):
 def expand(hist):
     out = []
     if not hist:
+        _load_index()
         for lib in sorted(_PREP):
             out.append({"ev": ["lib", lib], "key": ("lib", lib, _PREP[lib]["digest"])})
         return out
@@ -220,7 +254,7 @@ def expand(hist):
     state = _fresh_tree(lib)
     for ev in hist[1:]:
         do_request(state, ev[0], ev[1])
-    snap = _snapshot(state) if len(hist) > 1 else _PREP[lib]["snap"]
+    snap = _snapshot(state) if len(hist) > 1 else _prep(lib)["snap"]
     for kind in kinds_for(lib):
         for cls in classes_of(lib):
             if snap is not None:
@@ -267,6 +301,8 @@ def _cli_classes(name):
 def cli_jobs():
     jobs = []
     for name in sorted(_cli_libs()):
+        if (("share:" + name[len("share_") :]) if name.startswith("share_") else "hand:" + name) not in _PREP:
+            continue
         cl = _cli_classes(name)
         for a in cl:
             jobs.append((name, a, None))
@@ -315,17 +351,22 @@ def run(ctx):
     _init(ctx.tier)
     _preimport()
     depth = 1 + (3 if ctx.tier == "quick" else 5)
-    # phase 1: one real parse per library (in parallel); the results are inherited by the search workers (fork)
+    _CFG["prepdir"] = common.new_scratch("prep")
     with common.Pool(init=_init, initargs=(ctx.tier,)) as pool:
+        # phase 1: one real parse per library (in parallel); the workers find the results in the scratch directory
         prepared = pool.map(_prepare, sorted(_TEXTS), chunksize=1)
-    _PREP.clear()
-    no_snapshot = []
-    for lib, p in prepared:
-        if p is not None:
-            _PREP[lib] = p
-            if p["snap"] is None:
-                no_snapshot.append(lib)
-    with common.Pool(init=_init, initargs=(ctx.tier,)) as pool:
+        _PREP.clear()
+        no_snapshot = []
+        for lib, p in prepared:
+            if p is not None:
+                _PREP[lib] = p
+                if p["snap"] is None:
+                    no_snapshot.append(lib)
+        with open(os.path.join(_CFG["prepdir"], "index.pkl.tmp"), "wb") as f:
+            pickle.dump(_PREP, f)
+        os.rename(os.path.join(_CFG["prepdir"], "index.pkl.tmp"), os.path.join(_CFG["prepdir"], "index.pkl"))
+        _CFG["index_loaded"] = True  # in the parent (which does the work itself when there is no pool)
+        # phase 2: the search
         st = bfs.search(ctx, pool, expand, init_key=("root",), max_depth=depth)
         jobs = cli_jobs()
         res = dict(zip(jobs, pool.map(_cli_job, jobs)))
@@ -401,4 +442,5 @@ def replay(case):
 
 def _prepare_light(lib):
     t = _parse(lib)
+    _CFG["index_loaded"] = True
     _PREP[lib] = {"snap": None, "classes": libs.class_paths(t), "digest": None, "fresh": {}}
